@@ -22,9 +22,11 @@ Import ListNotations.
 Definition ckey := (ostr * nat * nat)%type.
 Definition cache := list (ckey * N).
 
+(* written with nested ifs so that vm_compute (strict) stops at the first difference *)
 Definition ckey_eqb (a b : ckey) : bool :=
   match a, b with
-  | (p, k, l), (p', k', l') => ostr_eqb p p' && Nat.eqb k k' && Nat.eqb l l'
+  | (p, k, l), (p', k', l') =>
+      if Nat.eqb l l' then if Nat.eqb k k' then ostr_eqb p p' else false else false
   end.
 
 Fixpoint cache_find (c : cache) (key : ckey) : option N :=
